@@ -21,6 +21,7 @@ CLI:  python3 lua_interp.py file.lua --hex 0102...   (dissect the bytes, print t
 import math
 import re
 import sys
+import threading
 
 sys.setrecursionlimit(max(sys.getrecursionlimit(), 20000))
 
@@ -638,7 +639,7 @@ class Parser:
             if not self.fs.is_vararg:
                 self.error("cannot use '...' outside a vararg function")
             self.next()
-            return N("vararg", line)
+            return N("vararg", line, vslot=self.fs.vararg_slot)
         if tt == "{":
             return self.table()
         if tt == "function":
@@ -935,7 +936,8 @@ class LuaUserdata:
 def methods(cls):
     """Class decorator: every function named m_xxx becomes METHODS['xxx']."""
     ms = dict(cls.METHODS)
-    for k, v in list(vars(cls).items()):
+    for k in dir(cls):
+        v = getattr(cls, k)
         if k.startswith("m_") and callable(v):
             ms[k[2:]] = Builtin(v, k[2:])
     cls.METHODS = ms
@@ -1073,7 +1075,8 @@ def call_value(f, args):
     raise LuaError("attempt to call a %s value" % type_name(f))
 
 
-_STRING_LIB = LuaTable()      # filled by install_stdlib (shared: string methods s:upper())
+_STRING_LIB = LuaTable()      # filled once by install_stdlib (shared: string methods s:upper())
+_STRING_LIB_LOCK = threading.Lock()
 
 
 def index_value(o, k):
@@ -1228,11 +1231,9 @@ def arith_numbers(op, a, b):
                 raise LuaError("attempt to perform 'n%%0'")
             return a % b
         a, b = float(a), float(b)
-        if b == 0.0 or a in (math.inf, -math.inf) or a != a or b != b:
+        if b == 0.0:
             return math.nan
-        if b in (math.inf, -math.inf):
-            return a if (a >= 0) == (b > 0) or a == 0 else b
-        return math.fmod(a, b) + (b if math.fmod(a, b) != 0 and (math.fmod(a, b) < 0) != (b < 0) else 0.0)
+        return a % b                 # Python's float % has Lua's sign-of-divisor semantics
     if op == "//":
         if ints:
             if b == 0:
@@ -1319,3 +1320,1869 @@ def length(v):
         if r is not NotImplemented:
             return r
     raise LuaError("attempt to get length of a %s value" % type_name(v))
+
+
+# =====================================================================================================
+# Compiler: AST -> Python closures.  Expression closures take the frame and return ONE value; "multi"
+# closures return a list of values.  Statement closures return None (fall through), BREAK, or a list (return).
+
+BREAK = object()
+_NUM = (int, float)
+
+
+def describe(node):
+    """Variable info for error messages, as luaG_typeerror gives it."""
+    k = node.kind
+    if k == "local":
+        return " (local '%s')" % node.name
+    if k == "upval":
+        return " (upvalue '%s')" % node.name
+    if k == "global":
+        return " (global '%s')" % node.name
+    if k == "index" and node.key.kind == "const" and type(node.key.value) is str:
+        return " (field '%s')" % node.key.value
+    if k == "method":
+        return " (method '%s')" % node.name
+    if k == "const" and type(node.value) is str:
+        return " (constant '%s')" % node.value[:40]
+    return ""
+
+
+class Compiler:
+    def __init__(self, interp):
+        self.it = interp
+        self.chunk = interp.chunk
+
+    def err(self, line, msg):
+        e = LuaError("%s:%d: %s" % (self.chunk, line, msg), True)
+        e.traceback.append((line, msg))
+        return e
+
+    def position(self, e, line, what=""):
+        """Give a LuaError raised by a helper / builtin the position of the calling Lua code."""
+        if not e.positioned:
+            if isinstance(e.value, str):
+                e.value = "%s:%d: %s" % (self.chunk, line, e.value)
+                e.args = (e.value,)
+            e.positioned = True
+        e.traceback.append((line, what))
+        return e
+
+    # ---------------------------------------------------------------- functions
+    def function(self, node):
+        fs = node.fs
+        proto = FuncProto()
+        proto.nslots = fs.nslots
+        proto.params = [(v.slot, v.captured) for v in fs.params]
+        proto.nparams = len(fs.params)
+        proto.is_vararg = fs.is_vararg
+        proto.vararg_slot = fs.vararg_slot
+        proto.updescs = [(instack, idx) for _, instack, idx in fs.upvals]
+        proto.name = node.name or "anonymous"
+        proto.line = node.line
+        proto.interp = self.it
+        self.cur_fs = fs
+        proto.body = self.block(node.body)
+        return proto
+
+    def c_function(self, node):
+        saved = getattr(self, "cur_fs", None)
+        proto = self.function(node)
+        self.cur_fs = saved
+        descs = proto.updescs
+        if not descs:
+            return lambda fr: LuaFunction(proto, [])
+
+        def mk(fr):
+            return LuaFunction(proto, [fr[i] if instack else fr[0][i] for instack, i in descs])
+        return mk
+
+    # ---------------------------------------------------------------- blocks / statements
+    def block(self, stmts):
+        fns = [self.stmt(s) for s in stmts]
+        if not fns:
+            return lambda fr: None
+        if len(fns) == 1:
+            return fns[0]
+        if len(fns) == 2:
+            a, b = fns
+
+            def block2(fr):
+                r = a(fr)
+                if r is not None:
+                    return r
+                return b(fr)
+            return block2
+
+        def block(fr):
+            for s in fns:
+                r = s(fr)
+                if r is not None:
+                    return r
+            return None
+        return block
+
+    def stmt(self, node):
+        return getattr(self, "s_" + node.kind)(node)
+
+    def store(self, var):
+        """closure (fr, value) declaring a NEW local (fresh cell if captured)."""
+        slot = var.slot
+        if var.captured:
+            def st(fr, v):
+                fr[slot] = [v]
+        else:
+            def st(fr, v):
+                fr[slot] = v
+        return st
+
+    def s_local(self, node):
+        vars_, exprs = node.vars, node.exprs
+        if len(vars_) == 1 and len(exprs) == 1:
+            e = self.expr(exprs[0])
+            slot = vars_[0].slot
+            if vars_[0].captured:
+                def local1c(fr):
+                    fr[slot] = [e(fr)]
+                return local1c
+
+            def local1(fr):
+                fr[slot] = e(fr)
+            return local1
+        stores = [self.store(v) for v in vars_]
+        if not exprs:
+            def localnil(fr):
+                for st in stores:
+                    st(fr, None)
+            return localnil
+        ml = self.multi(exprs)
+        nv = len(stores)
+
+        def localn(fr):
+            vals = ml(fr)
+            n = len(vals)
+            for i in range(nv):
+                stores[i](fr, vals[i] if i < n else None)
+        return localn
+
+    def s_localfunction(self, node):
+        mk = self.c_function(node.fn)
+        slot = node.var.slot
+        if node.var.captured:
+            def lf(fr):
+                cell = [None]
+                fr[slot] = cell
+                cell[0] = mk(fr)
+        else:
+            def lf(fr):
+                fr[slot] = mk(fr)
+        return lf
+
+    def assigner(self, t):
+        """closure (fr) -> closure-ready setter: returns fn(fr, value); index targets pre-evaluate nothing
+        (single assignment) -- multiple assignment uses assigner2."""
+        k = t.kind
+        if k == "local":
+            slot = t.var.slot
+            if t.var.captured:
+                def set_(fr, v):
+                    fr[slot][0] = v
+            else:
+                def set_(fr, v):
+                    fr[slot] = v
+            return set_
+        if k == "upval":
+            idx = t.idx
+
+            def set_(fr, v):
+                fr[0][idx][0] = v
+            return set_
+        if k == "global":
+            G = self.it.globals
+            name = t.name
+
+            def set_(fr, v):
+                if G.meta is None:
+                    if v is None:
+                        G.d.pop(name, None)
+                    else:
+                        G.d[name] = v
+                else:
+                    setindex_value(G, name, v)
+            return set_
+        raise AssertionError(k)
+
+    def s_assign(self, node):
+        targets, exprs = node.targets, node.exprs
+        line = node.line
+        if len(targets) == 1 and len(exprs) == 1:
+            t = targets[0]
+            e = self.expr(exprs[0])
+            if t.kind == "index":
+                obj = self.expr(t.obj)
+                key = self.expr(t.key)
+                desc = describe(t.obj)
+                tline = t.line
+
+                def assign_index(fr):
+                    o = obj(fr)
+                    k = key(fr)
+                    v = e(fr)
+                    if type(o) is LuaTable and o.meta is None:
+                        tk = type(k)
+                        if (tk is str or tk is int) and v is not None:
+                            o.d[k] = v
+                            return
+                    try:
+                        setindex_value(o, k, v)
+                    except LuaError as ex:
+                        if not ex.positioned and type(o) is not LuaTable and not isinstance(o, LuaUserdata):
+                            ex.value += desc
+                        raise self.position(ex, tline)
+                return assign_index
+            set_ = self.assigner(t)
+
+            def assign1(fr):
+                set_(fr, e(fr))
+            return assign1
+        # general case: evaluate object/key expressions left to right, then the values, then assign
+        pre = []
+        for t in targets:
+            if t.kind == "index":
+                pre.append((self.expr(t.obj), self.expr(t.key), describe(t.obj), t.line))
+            else:
+                pre.append(self.assigner(t))
+        ml = self.multi(exprs)
+
+        def assign(fr):
+            refs = [(p[0](fr), p[1](fr), p[2], p[3]) if type(p) is tuple else p for p in pre]
+            vals = ml(fr)
+            n = len(vals)
+            for i, r in enumerate(refs):
+                v = vals[i] if i < n else None
+                if type(r) is tuple:
+                    try:
+                        setindex_value(r[0], r[1], v)
+                    except LuaError as ex:
+                        if not ex.positioned and type(r[0]) is not LuaTable and not isinstance(r[0], LuaUserdata):
+                            ex.value += r[2]
+                        raise self.position(ex, r[3])
+                else:
+                    r(fr, v)
+        return assign
+
+    def s_callstat(self, node):
+        c = self.multi_call(node.call)
+
+        def callstat(fr):
+            c(fr)
+        return callstat
+
+    def s_do(self, node):
+        return self.block(node.body)
+
+    def s_return(self, node):
+        exprs = node.exprs
+        if not exprs:
+            return lambda fr: []
+        if len(exprs) == 1 and exprs[0].kind not in ("call", "method", "vararg"):
+            e = self.expr(exprs[0])
+            return lambda fr: [e(fr)]
+        return self.multi(exprs)
+
+    def s_break(self, node):
+        return lambda fr: BREAK
+
+    def s_if(self, node):
+        clauses = [(self.expr(c), self.block(b)) for c, b in node.clauses]
+        orelse = self.block(node.orelse) if node.orelse is not None else None
+        if len(clauses) == 1:
+            cond, body = clauses[0]
+            if orelse is None:
+                def if1(fr):
+                    v = cond(fr)
+                    if v is not None and v is not False:
+                        return body(fr)
+                return if1
+
+            def if2(fr):
+                v = cond(fr)
+                if v is not None and v is not False:
+                    return body(fr)
+                return orelse(fr)
+            return if2
+
+        def ifn(fr):
+            for cond, body in clauses:
+                v = cond(fr)
+                if v is not None and v is not False:
+                    return body(fr)
+            if orelse is not None:
+                return orelse(fr)
+        return ifn
+
+    def s_while(self, node):
+        cond = self.expr(node.cond)
+        body = self.block(node.body)
+        it = self.it
+        line = node.line
+
+        def while_(fr):
+            while True:
+                v = cond(fr)
+                if v is None or v is False:
+                    return None
+                it.steps += 1
+                if it.steps > it.max_steps:
+                    raise self.err(line, "step limit exceeded (%d)" % it.max_steps)
+                r = body(fr)
+                if r is not None:
+                    if r is BREAK:
+                        return None
+                    return r
+        return while_
+
+    def s_repeat(self, node):
+        cond = self.expr(node.cond)
+        body = self.block(node.body)
+        it = self.it
+        line = node.line
+
+        def repeat(fr):
+            while True:
+                it.steps += 1
+                if it.steps > it.max_steps:
+                    raise self.err(line, "step limit exceeded (%d)" % it.max_steps)
+                r = body(fr)
+                if r is not None:
+                    if r is BREAK:
+                        return None
+                    return r
+                v = cond(fr)
+                if v is not None and v is not False:
+                    return None
+        return repeat
+
+    def s_numfor(self, node):
+        start = self.expr(node.start)
+        limit = self.expr(node.limit)
+        step = self.expr(node.step) if node.step is not None else None
+        body = self.block(node.body)
+        slot = node.var.slot
+        captured = node.var.captured
+        it = self.it
+        line = node.line
+
+        def forprep(v, what):
+            n = v if type(v) in _NUM else (tonumber(v) if type(v) is str else None)
+            if n is None:
+                raise self.err(line, "'for' %s must be a number" % what)
+            return n
+
+        def numfor(fr):
+            a = start(fr)
+            b = limit(fr)
+            c = step(fr) if step is not None else 1
+            if type(a) is not int and type(a) is not float:
+                a = forprep(a, "initial value")
+            if type(b) is not int and type(b) is not float:
+                b = forprep(b, "limit")
+            if type(c) is not int and type(c) is not float:
+                c = forprep(c, "step")
+            if type(a) is int and type(c) is int:
+                if c == 0:
+                    raise self.err(line, "'for' step is zero")
+                if type(b) is float:                       # forlimit: clip a float limit to an integer
+                    if b != b:
+                        return None
+                    if b >= 9.3e18:
+                        b = (1 << 63) - 1
+                    elif b <= -9.3e18:
+                        b = -(1 << 63)
+                    else:
+                        b = math.floor(b) if c > 0 else math.ceil(b)
+            else:
+                a, b, c = float(a), float(b), float(c)
+                if c == 0.0:
+                    raise self.err(line, "'for' step is zero")
+            i = a
+            up = c > 0
+            while (i <= b) if up else (i >= b):
+                it.steps += 1
+                if it.steps > it.max_steps:
+                    raise self.err(line, "step limit exceeded (%d)" % it.max_steps)
+                fr[slot] = [i] if captured else i
+                r = body(fr)
+                if r is not None:
+                    if r is BREAK:
+                        return None
+                    return r
+                i += c
+            return None
+        return numfor
+
+    def s_genfor(self, node):
+        ml = self.multi(node.exprs)
+        stores = [self.store(v) for v in node.vars]
+        nv = len(stores)
+        body = self.block(node.body)
+        it = self.it
+        line = node.line
+        desc = " (for iterator 'for iterator')"
+
+        def genfor(fr):
+            vals = ml(fr)
+            n = len(vals)
+            f = vals[0] if n > 0 else None
+            s = vals[1] if n > 1 else None
+            ctl = vals[2] if n > 2 else None
+            while True:
+                it.steps += 1
+                if it.steps > it.max_steps:
+                    raise self.err(line, "step limit exceeded (%d)" % it.max_steps)
+                try:
+                    if type(f) is Builtin:
+                        rs = f.fn(s, ctl)
+                        if type(rs) is not tuple:
+                            rs = (rs,)
+                    else:
+                        rs = call_value(f, [s, ctl])
+                except LuaError as ex:
+                    if not ex.positioned and ex.value == "attempt to call a %s value" % type_name(f):
+                        ex.value += desc
+                    raise self.position(ex, line)
+                m = len(rs)
+                ctl = rs[0] if m else None
+                if ctl is None:
+                    return None
+                for i in range(nv):
+                    stores[i](fr, rs[i] if i < m else None)
+                r = body(fr)
+                if r is not None:
+                    if r is BREAK:
+                        return None
+                    return r
+        return genfor
+
+    # ---------------------------------------------------------------- expressions
+    def expr(self, node):
+        return getattr(self, "e_" + node.kind)(node)
+
+    def multi(self, exprs):
+        """list of expression nodes -> closure returning the list of values (last one expanded)."""
+        if not exprs:
+            return lambda fr: []
+        last = exprs[-1]
+        if last.kind in ("call", "method", "vararg"):
+            head = [self.expr(e) for e in exprs[:-1]]
+            tail = self.multi_call(last) if last.kind != "vararg" else self.multi_vararg(last)
+            if not head:
+                return lambda fr: list(tail(fr))
+            if len(head) == 1:
+                h0 = head[0]
+
+                def multi1(fr):
+                    v = h0(fr)
+                    return [v] + tail(fr)
+                return multi1
+
+            def multin(fr):
+                vals = [h(fr) for h in head]
+                vals.extend(tail(fr))
+                return vals
+            return multin
+        fns = [self.expr(e) for e in exprs]
+        n = len(fns)
+        if n == 1:
+            a = fns[0]
+            return lambda fr: [a(fr)]
+        if n == 2:
+            a, b = fns
+            return lambda fr: [a(fr), b(fr)]
+        if n == 3:
+            a, b, c = fns
+            return lambda fr: [a(fr), b(fr), c(fr)]
+        if n == 4:
+            a, b, c, d = fns
+            return lambda fr: [a(fr), b(fr), c(fr), d(fr)]
+        return lambda fr: [f(fr) for f in fns]
+
+    def multi_vararg(self, node):
+        slot = self.slot_of_vararg(node)
+        return lambda fr: list(fr[slot])
+
+    def slot_of_vararg(self, node):
+        return node.vslot
+
+    def e_vararg(self, node):
+        slot = node.vslot
+
+        def vararg1(fr):
+            v = fr[slot]
+            return v[0] if v else None
+        return vararg1
+
+    def e_paren(self, node):
+        return self.expr(node.inner)
+
+    def e_const(self, node):
+        v = node.value
+        return lambda fr: v
+
+    def e_local(self, node):
+        slot = node.var.slot
+        if node.var.captured:
+            return lambda fr: fr[slot][0]
+        return lambda fr: fr[slot]
+
+    def e_upval(self, node):
+        idx = node.idx
+        return lambda fr: fr[0][idx][0]
+
+    def e_global(self, node):
+        G = self.it.globals
+        d = G.d
+        name = node.name
+
+        def glob(fr):
+            v = d.get(name)
+            if v is None and G.meta is not None:
+                return index_value(G, name)
+            return v
+        return glob
+
+    def e_function(self, node):
+        return self.c_function(node)
+
+    def e_and(self, node):
+        l, r = self.expr(node.left), self.expr(node.right)
+
+        def and_(fr):
+            v = l(fr)
+            if v is None or v is False:
+                return v
+            return r(fr)
+        return and_
+
+    def e_or(self, node):
+        l, r = self.expr(node.left), self.expr(node.right)
+
+        def or_(fr):
+            v = l(fr)
+            if v is None or v is False:
+                return r(fr)
+            return v
+        return or_
+
+    def e_index(self, node):
+        obj = self.expr(node.obj)
+        line = node.line
+        desc = describe(node.obj)
+        if node.key.kind == "const" and type(node.key.value) is str:
+            k = node.key.value
+
+            def index_const(fr):
+                o = obj(fr)
+                if type(o) is LuaTable:
+                    v = o.d.get(k)
+                    if v is not None or o.meta is None:
+                        return v
+                try:
+                    return index_value(o, k)
+                except LuaError as ex:
+                    if not ex.positioned and ex.value == "attempt to index a %s value" % type_name(o):
+                        ex.value += desc
+                    raise self.position(ex, line)
+            return index_const
+        key = self.expr(node.key)
+
+        def index(fr):
+            o = obj(fr)
+            k = key(fr)
+            try:
+                return index_value(o, k)
+            except LuaError as ex:
+                if not ex.positioned and ex.value == "attempt to index a %s value" % type_name(o):
+                    ex.value += desc
+                raise self.position(ex, line)
+        return index
+
+    def e_table(self, node):
+        items = node.items
+        line = node.line
+        # Lua evaluates fields in source order; keyed and positional fields are independent, so evaluating the
+        # keyed ones in order and the positional ones in order is observably the same except for side effects
+        # between the two groups (irrelevant for the supported use).
+        order = []
+        pi = 0
+        for it_ in items:
+            if it_[0] == "pos":
+                pi += 1
+                order.append(("pos", pi, it_[1]))
+            else:
+                order.append(("kv", self.expr(it_[1]), self.expr(it_[2])))
+        last_multi = None
+        if items and items[-1][0] == "pos" and items[-1][1].kind in ("call", "method", "vararg"):
+            lm = items[-1][1]
+            last_multi = self.multi_call(lm) if lm.kind != "vararg" else self.multi_vararg(lm)
+            order.pop()
+            pi -= 1
+        steps = [(k, a, self.expr(b)) if k == "pos" else (k, a, b) for k, a, b in order]
+        npos = pi
+
+        def table(fr):
+            t = LuaTable()
+            d = t.d
+            for kind, a, b in steps:
+                if kind == "pos":
+                    v = b(fr)
+                    if v is not None:
+                        d[a] = v
+                else:
+                    k = a(fr)
+                    v = b(fr)
+                    tk = type(k)
+                    if (tk is str or tk is int) and v is not None:
+                        d[k] = v
+                    else:
+                        try:
+                            t.set(k, v)
+                        except LuaError as ex:
+                            raise self.position(ex, line)
+            if last_multi is not None:
+                i = npos
+                for v in last_multi(fr):
+                    i += 1
+                    if v is not None:
+                        d[i] = v
+            return t
+        return table
+
+    # ---- calls
+    def args_closure(self, args, selfexpr=None):
+        return self.multi(args)
+
+    def multi_call(self, node):
+        """call / method node -> closure returning the LIST of results."""
+        line = node.line
+        it = self.it
+        args = self.multi(node.args)
+        if node.kind == "call":
+            fn = self.expr(node.fn)
+            desc = describe(node.fn)
+            what = desc.strip(" ()") or "function"
+
+            def call(fr):
+                f = fn(fr)
+                a = args(fr)
+                try:
+                    if type(f) is LuaFunction:
+                        return f.invoke(a)
+                    if type(f) is Builtin:
+                        r = f.fn(*a)
+                        if type(r) is tuple:
+                            return list(r)
+                        return [r]
+                    return call_value(f, a)
+                except LuaError as ex:
+                    if not ex.positioned and ex.value == "attempt to call a %s value" % type_name(f):
+                        ex.value += desc
+                    raise self.position(ex, line, what)
+                except TypeError as ex:
+                    if type(f) is Builtin and ex.__traceback__.tb_next is None:
+                        raise self.err(line, "bad argument to '%s' (wrong number of arguments)" % f.name)
+                    raise
+            return call
+        obj = self.expr(node.obj)
+        name = node.name
+        odesc = describe(node.obj)
+        mdesc = " (method '%s')" % name
+
+        def method(fr):
+            o = obj(fr)
+            try:
+                if type(o) is LuaTable:
+                    f = o.d.get(name)
+                    if f is None and o.meta is not None:
+                        f = index_value(o, name)
+                else:
+                    f = index_value(o, name)
+            except LuaError as ex:
+                if not ex.positioned and ex.value == "attempt to index a %s value" % type_name(o):
+                    ex.value += odesc
+                raise self.position(ex, line)
+            a = args(fr)
+            a.insert(0, o)
+            try:
+                if type(f) is Builtin:
+                    r = f.fn(*a)
+                    if type(r) is tuple:
+                        return list(r)
+                    return [r]
+                if type(f) is LuaFunction:
+                    return f.invoke(a)
+                return call_value(f, a)
+            except LuaError as ex:
+                if not ex.positioned and ex.value == "attempt to call a %s value" % type_name(f):
+                    ex.value += mdesc
+                raise self.position(ex, line, "method '%s'" % name)
+            except TypeError as ex:
+                if type(f) is Builtin and ex.__traceback__.tb_next is None:
+                    raise self.err(line, "bad argument to '%s' (wrong number of arguments)" % name)
+                raise
+        return method
+
+    def e_call(self, node):
+        c = self.multi_call(node)
+
+        def call1(fr):
+            r = c(fr)
+            return r[0] if r else None
+        return call1
+
+    e_method = e_call
+
+    # ---- operators
+    def e_unop(self, node):
+        op = node.op
+        e = self.expr(node.operand)
+        line = node.line
+        desc = describe(node.operand)
+        if op == "not":
+            def not_(fr):
+                v = e(fr)
+                return v is None or v is False
+            return not_
+        if op == "#":
+            def len_(fr):
+                v = e(fr)
+                if type(v) is str:
+                    return len(v)
+                try:
+                    return length(v)
+                except LuaError as ex:
+                    if not ex.positioned and ex.value.startswith("attempt to get length"):
+                        ex.value += desc
+                    raise self.position(ex, line)
+            return len_
+        aop = "unm" if op == "-" else "bnot"
+
+        def unary(fr):
+            v = e(fr)
+            if aop == "unm":
+                if type(v) is float:
+                    return -v
+                if type(v) is int:
+                    return wrap64(-v)
+            try:
+                return arith(aop, v, v)
+            except LuaError as ex:
+                if not ex.positioned and hasattr(ex, "operand"):
+                    ex.value += desc
+                raise self.position(ex, line)
+        return unary
+
+    def e_binop(self, node):
+        op = node.op
+        l, r = self.expr(node.left), self.expr(node.right)
+        line = node.line
+        descs = (describe(node.left), describe(node.right))
+        position = self.position
+
+        def slow(a, b):
+            try:
+                return arith(op, a, b)
+            except LuaError as ex:
+                if not ex.positioned and hasattr(ex, "operand"):
+                    ex.value += descs[ex.operand]
+                raise position(ex, line)
+
+        if op == "+":
+            def add(fr):
+                a = l(fr)
+                b = r(fr)
+                if type(a) is int and type(b) is int:
+                    v = a + b
+                    if -0x8000000000000000 <= v <= 0x7FFFFFFFFFFFFFFF:
+                        return v
+                    return wrap64(v)
+                return slow(a, b)
+            return add
+        if op == "-":
+            def sub(fr):
+                a = l(fr)
+                b = r(fr)
+                if type(a) is int and type(b) is int:
+                    v = a - b
+                    if -0x8000000000000000 <= v <= 0x7FFFFFFFFFFFFFFF:
+                        return v
+                    return wrap64(v)
+                return slow(a, b)
+            return sub
+        if op in ("*", "/", "%", "^", "//", "&", "|", "~", "<<", ">>"):
+            return lambda fr: slow(l(fr), r(fr))
+        if op == "..":
+            def cat(fr):
+                a = l(fr)
+                b = r(fr)
+                if type(a) is str and type(b) is str:
+                    return a + b
+                try:
+                    return concat(a, b)
+                except LuaError as ex:
+                    if not ex.positioned and hasattr(ex, "operand"):
+                        ex.value += descs[ex.operand]
+                    raise position(ex, line)
+            return cat
+        if op == "==":
+            def eq(fr):
+                a = l(fr)
+                b = r(fr)
+                ta = type(a)
+                if ta is type(b) and (ta is int or ta is str):
+                    return a == b
+                return lua_eq(a, b)
+            return eq
+        if op == "~=":
+            return lambda fr: not lua_eq(l(fr), r(fr))
+
+        def cmp_(f, swap):
+            def c(fr):
+                a = l(fr)
+                b = r(fr)
+                try:
+                    return f(b, a) if swap else f(a, b)
+                except LuaError as ex:
+                    raise position(ex, line)
+            return c
+        if op == "<":
+            return cmp_(lua_lt, False)
+        if op == "<=":
+            return cmp_(lua_le, False)
+        if op == ">":
+            return cmp_(lua_lt, True)
+        if op == ">=":
+            return cmp_(lua_le, True)
+        raise AssertionError(op)
+
+
+# =====================================================================================================
+# Lua patterns (string.find / match / gmatch / gsub), after lstrlib.c
+
+class _PatErr(LuaError):
+    pass
+
+
+_L_ESC = "%"
+_SPECIALS = "^$*+?.([%-"
+
+
+def _class_match(c, cl):
+    o = ord(c)
+    lc = cl.lower()
+    if lc == "a":
+        r = c.isalpha() and o < 128
+    elif lc == "d":
+        r = "0" <= c <= "9"
+    elif lc == "l":
+        r = "a" <= c <= "z"
+    elif lc == "s":
+        r = c in " \t\n\r\f\v"
+    elif lc == "u":
+        r = "A" <= c <= "Z"
+    elif lc == "w":
+        r = (c.isalnum() and o < 128)
+    elif lc == "x":
+        r = c in "0123456789abcdefABCDEF"
+    elif lc == "p":
+        r = 33 <= o <= 126 and not c.isalnum()
+    elif lc == "c":
+        r = o < 32 or o == 127
+    elif lc == "g":
+        r = 33 <= o <= 126
+    else:
+        return cl == c
+    return (not r) if cl.isupper() else r
+
+
+class _Matcher:
+    def __init__(self, src, pat):
+        self.src = src
+        self.pat = pat
+        self.level = 0
+        self.capture = []            # [start, len]  len: -1 = position capture, -2 = unclosed
+        self.calls = 0
+
+    def class_end(self, p):
+        pat = self.pat
+        if p >= len(pat):
+            raise LuaError("malformed pattern (ends with '%')")
+        c = pat[p]
+        p += 1
+        if c == _L_ESC:
+            if p >= len(pat):
+                raise LuaError("malformed pattern (ends with '%')")
+            return p + 1
+        if c == "[":
+            n = len(pat)
+            if p < n and pat[p] == "^":
+                p += 1
+            while True:                                  # look for a ']'
+                if p >= n:
+                    raise LuaError("malformed pattern (missing ']')")
+                c = pat[p]
+                p += 1
+                if c == _L_ESC and p < n:
+                    p += 1                               # skip escapes (e.g. '%]')
+                if p >= n:
+                    raise LuaError("malformed pattern (missing ']')")
+                if pat[p] == "]":
+                    return p + 1
+        return p
+
+    def match_set(self, c, p, ec):
+        """p: index of '[', ec: index of the closing ']'."""
+        pat = self.pat
+        sig = True
+        if pat[p + 1] == "^":
+            sig = False
+            p += 1
+        p += 1
+        while p < ec:
+            if pat[p] == _L_ESC:
+                p += 1
+                if _class_match(c, pat[p]):
+                    return sig
+            elif pat[p + 1] == "-" and p + 2 < ec:
+                if pat[p] <= c <= pat[p + 2]:
+                    return sig
+                p += 2
+            elif pat[p] == c:
+                return sig
+            p += 1
+        return not sig
+
+    def single(self, s, p, ep):
+        if s >= len(self.src):
+            return False
+        c = self.src[s]
+        pc = self.pat[p]
+        if pc == ".":
+            return True
+        if pc == _L_ESC:
+            return _class_match(c, self.pat[p + 1])
+        if pc == "[":
+            return self.match_set(c, p, ep - 1)
+        return pc == c
+
+    def match(self, s, p):
+        self.calls += 1
+        if self.calls > 200000:
+            raise LuaError("pattern too complex")
+        pat, src = self.pat, self.src
+        while True:
+            if p >= len(pat):
+                return s
+            pc = pat[p]
+            if pc == "(":
+                if p + 1 < len(pat) and pat[p + 1] == ")":
+                    return self.start_capture(s, p + 2, -1)
+                return self.start_capture(s, p + 1, -2)
+            if pc == ")":
+                return self.end_capture(s, p + 1)
+            if pc == "$" and p + 1 == len(pat):
+                return s if s == len(src) else None
+            if pc == _L_ESC and p + 1 < len(pat):
+                nx = pat[p + 1]
+                if nx == "b":
+                    return self.match_balance(s, p + 2)
+                if nx == "f":
+                    p += 2
+                    if p >= len(pat) or pat[p] != "[":
+                        raise LuaError("missing '[' after '%f' in pattern")
+                    ep = self.class_end(p)
+                    prev = src[s - 1] if s > 0 else "\0"
+                    cur = src[s] if s < len(src) else "\0"
+                    if not self.match_set(prev, p, ep - 1) and self.match_set(cur, p, ep - 1):
+                        p = ep
+                        continue
+                    return None
+                if nx.isdigit():
+                    s = self.match_capture(s, int(nx))
+                    if s is None:
+                        return None
+                    p += 2
+                    continue
+            ep = self.class_end(p)
+            epc = pat[ep] if ep < len(pat) else ""
+            if epc == "?":
+                if self.single(s, p, ep):
+                    r = self.match(s + 1, ep + 1)
+                    if r is not None:
+                        return r
+                p = ep + 1
+                continue
+            if epc == "+":
+                return self.max_expand(s + 1, p, ep) if self.single(s, p, ep) else None
+            if epc == "*":
+                return self.max_expand(s, p, ep)
+            if epc == "-":
+                while True:
+                    r = self.match(s, ep + 1)
+                    if r is not None:
+                        return r
+                    if self.single(s, p, ep):
+                        s += 1
+                    else:
+                        return None
+            if not self.single(s, p, ep):
+                return None
+            s += 1
+            p = ep
+
+    def max_expand(self, s, p, ep):
+        i = 0
+        while self.single(s + i, p, ep):
+            i += 1
+        while i >= 0:
+            r = self.match(s + i, ep + 1)
+            if r is not None:
+                return r
+            i -= 1
+        return None
+
+    def start_capture(self, s, p, what):
+        self.capture.append([s, what])
+        r = self.match(s, p)
+        if r is None:
+            self.capture.pop()
+        return r
+
+    def end_capture(self, s, p):
+        for i in range(len(self.capture) - 1, -1, -1):
+            if self.capture[i][1] == -2:
+                self.capture[i][1] = s - self.capture[i][0]
+                r = self.match(s, p)
+                if r is None:
+                    self.capture[i][1] = -2
+                return r
+        raise LuaError("invalid pattern capture")
+
+    def match_balance(self, s, p):
+        if p + 1 >= len(self.pat):
+            raise LuaError("malformed pattern (missing arguments to '%b')")
+        src = self.src
+        if s >= len(src) or src[s] != self.pat[p]:
+            return None
+        b, e = self.pat[p], self.pat[p + 1]
+        cont = 1
+        i = s + 1
+        while i < len(src):
+            c = src[i]
+            if c == e:
+                cont -= 1
+                if cont == 0:
+                    return self.match(i + 1, p + 2)
+            elif c == b:
+                cont += 1
+            i += 1
+        return None
+
+    def match_capture(self, s, l):
+        l -= 1
+        if l < 0 or l >= len(self.capture) or self.capture[l][1] == -2:
+            raise LuaError("invalid capture index %%%d" % (l + 1))
+        cap = self.src[self.capture[l][0]:self.capture[l][0] + self.capture[l][1]]
+        if self.src.startswith(cap, s):
+            return s + len(cap)
+        return None
+
+    def get_capture(self, i, s, e):
+        if i >= len(self.capture):
+            if i == 0:
+                return self.src[s:e]
+            raise LuaError("invalid capture index %%%d" % (i + 1))
+        st, ln = self.capture[i]
+        if ln == -2:
+            raise LuaError("unfinished capture")
+        if ln == -1:
+            return st + 1
+        return self.src[st:st + ln]
+
+    def captures(self, s, e, whole_if_none=True):
+        n = len(self.capture)
+        if n == 0 and whole_if_none:
+            return [self.src[s:e]]
+        return [self.get_capture(i, s, e) for i in range(n)]
+
+
+def _str_find_aux(s, pat, init, plain, find):
+    s = _checkstr(s, 1)
+    pat = _checkstr(pat, 2)
+    init = 1 if init is None else tointeger(init)
+    if init < 0:
+        init = max(1, len(s) + init + 1)
+    elif init == 0:
+        init = 1
+    if init > len(s) + 1:
+        return None
+    if find and (truthy(plain) or not any(c in _SPECIALS for c in pat)):
+        i = s.find(pat, init - 1)
+        return (i + 1, i + len(pat)) if i >= 0 else None
+    anchor = pat.startswith("^")
+    p0 = 1 if anchor else 0
+    si = init - 1
+    while True:
+        m = _Matcher(s, pat)
+        e = m.match(si, p0)
+        if e is not None:
+            if find:
+                return tuple([si + 1, e] + m.captures(si, e, False))
+            return tuple(m.captures(si, e))
+        si += 1
+        if anchor or si > len(s):
+            return None
+
+
+def _checkstr(v, n, fname=None):
+    if type(v) is str:
+        return v
+    if type(v) in (int, float):
+        return fmt_number(v)
+    raise LuaError("bad argument #%d to '%s' (string expected, got %s)" % (n, fname or "?", "no value" if v is None else type_name(v)))
+
+
+def _str_gmatch(s, pat):
+    s = _checkstr(s, 1, "gmatch")
+    pat = _checkstr(pat, 2, "gmatch")
+    state = [0]
+
+    def it(*_):
+        si = state[0]
+        while si <= len(s):
+            m = _Matcher(s, pat)
+            e = m.match(si, 0)
+            if e is not None:
+                state[0] = e + 1 if e == si else e
+                return tuple(m.captures(si, e))
+            si += 1
+        state[0] = len(s) + 1
+        return None
+    return Builtin(it, "gmatch_iterator")
+
+
+def _str_gsub(s, pat, repl, max_n=None):
+    s = _checkstr(s, 1, "gsub")
+    pat = _checkstr(pat, 2, "gsub")
+    tr = type(repl)
+    if not (tr in (str, int, float, LuaTable, LuaFunction, Builtin)):
+        raise LuaError("bad argument #3 to 'gsub' (string/function/table expected, got %s)" % type_name(repl))
+    max_n = len(s) + 1 if max_n is None else tointeger(max_n)
+    anchor = pat.startswith("^")
+    p0 = 1 if anchor else 0
+    out = []
+    si = 0
+    n = 0
+    while n < max_n:
+        m = _Matcher(s, pat)
+        e = m.match(si, p0)
+        if e is not None:
+            n += 1
+            whole = s[si:e]
+            caps = m.captures(si, e)
+            if tr is LuaTable:
+                v = index_value(repl, caps[0])
+            elif tr in (LuaFunction, Builtin):
+                r = call_value(repl, caps)
+                v = r[0] if r else None
+            else:
+                rs = repl if tr is str else fmt_number(repl)
+                buf = []
+                i = 0
+                while i < len(rs):
+                    c = rs[i]
+                    if c == "%":
+                        i += 1
+                        if i >= len(rs):
+                            raise LuaError("invalid use of '%' in replacement string")
+                        c = rs[i]
+                        if c == "%":
+                            buf.append("%")
+                        elif c.isdigit():
+                            cv = whole if c == "0" else m.get_capture(int(c) - 1, si, e)
+                            buf.append(cv if type(cv) is str else fmt_number(cv))
+                        else:
+                            raise LuaError("invalid use of '%' in replacement string")
+                    else:
+                        buf.append(c)
+                    i += 1
+                v = "".join(buf)
+            if v is None or v is False:
+                v = whole
+            elif type(v) in (int, float):
+                v = fmt_number(v)
+            elif type(v) is not str:
+                raise LuaError("invalid replacement value (a %s)" % type_name(v))
+            out.append(v)
+        if e is not None and e > si:
+            si = e
+        elif si < len(s):
+            out.append(s[si])
+            si += 1
+        else:
+            break
+        if anchor:
+            break
+    out.append(s[si:])
+    return "".join(out), n
+
+
+_FMT_RE = re.compile(r"%([-+ #0]*)(\d+)?(?:\.(\d+))?([a-zA-Z%])")
+
+
+def _str_format(fmt, *args):
+    fmt = _checkstr(fmt, 1, "format")
+    out = []
+    pos = 0
+    ai = 0
+    while True:
+        i = fmt.find("%", pos)
+        if i < 0:
+            out.append(fmt[pos:])
+            break
+        out.append(fmt[pos:i])
+        m = _FMT_RE.match(fmt, i)
+        if not m:
+            raise LuaError("invalid option '%s' to 'format'" % fmt[i:i + 2])
+        flags, width, prec, conv = m.groups()
+        pos = m.end()
+        if conv == "%":
+            out.append("%")
+            continue
+        if ai >= len(args):
+            raise LuaError("bad argument #%d to 'format' (no value)" % (ai + 2))
+        a = args[ai]
+        ai += 1
+        spec = "%" + flags + (width or "") + ("." + prec if prec is not None else "")
+        if conv in "di":
+            out.append((spec + "d") % tointeger(a, "bad argument #%d to 'format' (" % (ai + 1)))
+        elif conv in "uoxX":
+            v = tointeger(a, "bad argument #%d to 'format' (" % (ai + 1))
+            if v < 0:
+                v += 1 << 64
+            out.append((spec + ("d" if conv == "u" else conv)) % v)
+        elif conv == "c":
+            out.append(chr(tointeger(a) & 0xFF))
+        elif conv in "eEfFgG":
+            n = tonumber(a)
+            if n is None:
+                raise LuaError("bad argument #%d to 'format' (number expected, got %s)" % (ai + 1, type_name(a)))
+            out.append((spec + conv) % float(n))
+        elif conv == "a" or conv == "A":
+            n = tonumber(a)
+            if n is None:
+                raise LuaError("bad argument #%d to 'format' (number expected, got %s)" % (ai + 1, type_name(a)))
+            out.append(float(n).hex())
+        elif conv == "s":
+            sv = tostr(a)
+            out.append((spec + "s") % sv)
+        elif conv == "q":
+            sv = _checkstr(a, ai + 1, "format") if type(a) is not bool and a is not None else tostr(a)
+            if type(a) is str:
+                sv = '"' + sv.replace("\\", "\\\\").replace('"', '\\"').replace("\n", "\\n").replace("\r", "\\r").replace("\0", "\\0") + '"'
+            out.append(sv)
+        else:
+            raise LuaError("invalid option '%%%s' to 'format'" % conv)
+    return "".join(out)
+
+
+# =====================================================================================================
+# Standard library
+
+class _UnsupportedLib(LuaUserdata):
+    """Placeholder for libraries that are not provided: any use raises Unsupported (infrastructure
+    limitation) instead of a misleading 'attempt to index a nil value'."""
+    TYPENAME = "unsupported"
+
+    def __init__(self, name):
+        self.name = name
+
+    def lua_index(self, k):
+        raise Unsupported("library '%s' is not provided by lua_interp (%s.%s)" % (self.name, self.name, k))
+
+    def lua_newindex(self, k, v):
+        raise Unsupported("library '%s' is not provided by lua_interp" % self.name)
+
+    def lua_call(self, args):
+        raise Unsupported("function '%s' is not provided by lua_interp" % self.name)
+
+
+def _argn(v, n, fname):
+    """check number argument"""
+    x = tonumber(v)
+    if x is None:
+        raise LuaError("bad argument #%d to '%s' (number expected, got %s)" % (n, fname, "no value" if v is None else type_name(v)))
+    return x
+
+
+def _argi(v, n, fname, default=None):
+    if v is None and default is not None:
+        return default
+    return tointeger(v, "bad argument #%d to '%s' (" % (n, fname)) if True else 0
+
+
+def _argt(v, n, fname):
+    if type(v) is not LuaTable:
+        raise LuaError("bad argument #%d to '%s' (table expected, got %s)" % (n, fname, "no value" if v is None else type_name(v)))
+    return v
+
+
+def install_stdlib(it):
+    G = it.globals
+
+    def reg(tbl, name, fn):
+        tbl.d[name] = Builtin(fn, name)
+
+    def lib(name):
+        t = LuaTable()
+        G.d[name] = t
+        return t
+
+    G.d["_G"] = G
+    G.d["_VERSION"] = "Lua 5.3"
+
+    # ---- basic
+    def l_print(*args):
+        it.output.append("\t".join(tostr(a) for a in args))
+        return ()
+
+    def l_type(*args):
+        if not args:
+            raise LuaError("bad argument #1 to 'type' (value expected)")
+        return type_name(args[0])
+
+    def l_tostring(v=None, *_):
+        return tostr(v)
+
+    def l_tonumber(v=None, base=None, *_):
+        if base is None:
+            return tonumber(v)
+        b = tointeger(base)
+        if type(v) is not str:
+            raise LuaError("bad argument #1 to 'tonumber' (string expected, got %s)" % type_name(v))
+        if not 2 <= b <= 36:
+            raise LuaError("bad argument #2 to 'tonumber' (base out of range)")
+        try:
+            return int(v.strip(), b)
+        except ValueError:
+            return None
+
+    def l_next(t=None, k=None, *_):
+        _argt(t, 1, "next")
+        r = t.next(k)
+        return r if r is not None else None
+
+    def l_pairs(t=None, *_):
+        mm = getmeta(t, "__pairs")
+        if mm is not None:
+            r = call_value(mm, [t])
+            return tuple((r + [None, None, None])[:3])
+        if isinstance(t, LuaUserdata):
+            raise LuaError("bad argument #1 to 'pairs' (table expected, got userdata)")
+        _argt(t, 1, "for iterator" if t is None else "pairs")
+        gen = t.items()
+
+        def pairs_iter(*_):
+            for kv in gen:
+                return kv
+            return None
+        return Builtin(pairs_iter, "next"), t, None
+
+    def ipairs_iter(t=None, i=0, *_):
+        i += 1
+        v = t.d.get(i) if type(t) is LuaTable and t.meta is None else index_value(t, i)
+        if v is None:
+            return None
+        return i, v
+    ipairs_b = Builtin(ipairs_iter, "ipairs_iterator")
+
+    def l_ipairs(t=None, *_):
+        if t is None:
+            raise LuaError("bad argument #1 to 'ipairs' (table expected, got no value)")
+        return ipairs_b, t, 0
+
+    def l_select(n=None, *args):
+        if n == "#":
+            return len(args)
+        i = tointeger(n, "bad argument #1 to 'select' (")
+        if i < 0:
+            i = len(args) + i
+            if i < 0:
+                raise LuaError("bad argument #1 to 'select' (index out of range)")
+            return tuple(args[i:])
+        if i == 0:
+            raise LuaError("bad argument #1 to 'select' (index out of range)")
+        return tuple(args[i - 1:])
+
+    def l_error(msg=None, level=1, *_):
+        e = LuaError(msg)
+        if type(msg) is not str or level == 0:
+            e.positioned = True
+        raise e
+
+    def l_assert(*args):
+        if not args:
+            raise LuaError("bad argument #1 to 'assert' (value expected)")
+        if not truthy(args[0]):
+            if len(args) > 1:
+                e = LuaError(args[1])
+                e.positioned = True
+                raise e
+            raise LuaError("assertion failed!")
+        return tuple(args)
+
+    def l_pcall(f=None, *args):
+        depth = it.depth
+        try:
+            return tuple([True] + call_value(f, list(args)))
+        except LuaError as e:
+            it.depth = depth
+            if "step limit" in str(e.value):
+                raise
+            return False, e.value
+        except RecursionError:
+            it.depth = depth
+            return False, "stack overflow"
+
+    def l_xpcall(f=None, h=None, *args):
+        depth = it.depth
+        try:
+            return tuple([True] + call_value(f, list(args)))
+        except LuaError as e:
+            it.depth = depth
+            if "step limit" in str(e.value):
+                raise
+            return tuple([False] + call_value(h, [e.value]))
+
+    def l_rawget(t=None, k=None, *_):
+        return _argt(t, 1, "rawget").get(k)
+
+    def l_rawset(t=None, k=None, v=None, *_):
+        _argt(t, 1, "rawset").set(k, v)
+        return t
+
+    def l_rawequal(a=None, b=None, *_):
+        if isinstance(a, LuaUserdata) or type(a) is LuaTable:
+            return a is b
+        return lua_eq(a, b)
+
+    def l_rawlen(v=None, *_):
+        if type(v) is LuaTable:
+            return v.length()
+        if type(v) is str:
+            return len(v)
+        raise LuaError("table or string expected")
+
+    def l_setmetatable(t=None, m=None, *_):
+        _argt(t, 1, "setmetatable")
+        if m is not None and type(m) is not LuaTable:
+            raise LuaError("bad argument #2 to 'setmetatable' (nil or table expected)")
+        if getmeta(t, "__metatable") is not None:
+            raise LuaError("cannot change a protected metatable")
+        t.meta = m
+        return t
+
+    def l_getmetatable(v=None, *_):
+        if type(v) is LuaTable and v.meta is not None:
+            p = v.meta.d.get("__metatable")
+            return p if p is not None else v.meta
+        if type(v) is str:
+            return it.string_meta
+        return None
+
+    def l_unpack(t=None, i=None, j=None, *_):
+        i = 1 if i is None else tointeger(i)
+        j = length(t) if j is None else tointeger(j)
+        if j - i >= 1000000:
+            raise LuaError("too many results to unpack")
+        return tuple(index_value(t, k) for k in range(i, j + 1))
+
+    for name, fn in [("print", l_print), ("type", l_type), ("tostring", l_tostring), ("tonumber", l_tonumber), ("next", l_next),
+                     ("pairs", l_pairs), ("ipairs", l_ipairs), ("select", l_select), ("error", l_error), ("assert", l_assert),
+                     ("pcall", l_pcall), ("xpcall", l_xpcall), ("rawget", l_rawget), ("rawset", l_rawset), ("rawequal", l_rawequal),
+                     ("rawlen", l_rawlen), ("setmetatable", l_setmetatable), ("getmetatable", l_getmetatable), ("unpack", l_unpack)]:
+        reg(G, name, fn)
+    for name in ("os", "io", "coroutine", "debug", "package", "require", "dofile", "loadfile", "load", "loadstring", "collectgarbage", "utf8"):
+        G.d[name] = _UnsupportedLib(name)
+
+    # ---- string
+    S = LuaTable()                 # filled below, then published once into the shared _STRING_LIB (thread safe)
+    G.d["string"] = _STRING_LIB
+    it.string_meta = LuaTable()
+    it.string_meta.d["__index"] = _STRING_LIB
+
+    def s_len(s=None, *_):
+        return len(_checkstr(s, 1, "len"))
+
+    def s_sub(s=None, i=1, j=-1, *_):
+        s = _checkstr(s, 1, "sub")
+        n = len(s)
+        i = tointeger(i, "bad argument #2 to 'sub' (")
+        j = tointeger(j, "bad argument #3 to 'sub' (")
+        if i < 0:
+            i = max(n + i + 1, 1)
+        elif i == 0:
+            i = 1
+        if j < 0:
+            j = n + j + 1
+        elif j > n:
+            j = n
+        return s[i - 1:j] if i <= j else ""
+
+    def s_rep(s=None, n=None, sep="", *_):
+        s = _checkstr(s, 1, "rep")
+        n = tointeger(n, "bad argument #2 to 'rep' (")
+        if n <= 0:
+            return ""
+        if (len(s) + len(sep)) * n > 50000000:
+            raise LuaError("resulting string too large")
+        return sep.join([s] * n) if sep else s * n
+
+    def s_byte(s=None, i=1, j=None, *_):
+        s = _checkstr(s, 1, "byte")
+        n = len(s)
+        i = tointeger(i)
+        j = i if j is None else tointeger(j)
+        if i < 0:
+            i = max(n + i + 1, 1)
+        elif i == 0:
+            i = 1
+        if j < 0:
+            j = n + j + 1
+        elif j > n:
+            j = n
+        return tuple(ord(c) for c in s[i - 1:j]) if i <= j else ()
+
+    def s_char(*args):
+        out = []
+        for k, a in enumerate(args):
+            v = tointeger(a, "bad argument #%d to 'char' (" % (k + 1))
+            if not 0 <= v <= 255:
+                raise LuaError("bad argument #%d to 'char' (value out of range)" % (k + 1))
+            out.append(chr(v))
+        return "".join(out)
+
+    def s_find(s=None, pat=None, init=None, plain=None, *_):
+        r = _str_find_aux(s, pat, init, plain, True)
+        return r
+
+    def s_match(s=None, pat=None, init=None, *_):
+        return _str_find_aux(s, pat, init, None, False)
+
+    for name, fn in [("len", s_len), ("sub", s_sub), ("rep", s_rep), ("byte", s_byte), ("char", s_char), ("find", s_find),
+                     ("match", s_match), ("gmatch", _str_gmatch), ("gsub", _str_gsub), ("format", _str_format),
+                     ("upper", lambda s=None, *_: _checkstr(s, 1, "upper").upper() if _checkstr(s, 1, "upper").isascii()
+                      else "".join(c.upper() if c.isascii() else c for c in s)),
+                     ("lower", lambda s=None, *_: "".join(c.lower() if c.isascii() else c for c in _checkstr(s, 1, "lower"))),
+                     ("reverse", lambda s=None, *_: _checkstr(s, 1, "reverse")[::-1])]:
+        reg(S, name, fn)
+    with _STRING_LIB_LOCK:
+        if not _STRING_LIB.d:
+            _STRING_LIB.d.update(S.d)
+
+    # ---- table
+    T = lib("table")
+
+    def t_insert(t=None, *args):
+        _argt(t, 1, "insert")
+        n = t.length()
+        if len(args) == 1:
+            t.set(n + 1, args[0])
+        elif len(args) == 2:
+            pos = tointeger(args[0], "bad argument #2 to 'insert' (")
+            if not 1 <= pos <= n + 1:
+                raise LuaError("bad argument #2 to 'insert' (position out of bounds)")
+            for i in range(n, pos - 1, -1):
+                t.set(i + 1, t.get(i))
+            t.set(pos, args[1])
+        else:
+            raise LuaError("wrong number of arguments to 'insert'")
+        return ()
+
+    def t_remove(t=None, pos=None, *_):
+        _argt(t, 1, "remove")
+        n = t.length()
+        if pos is None:
+            if n == 0:
+                return None
+            v = t.get(n)
+            t.set(n, None)
+            return v
+        pos = tointeger(pos)
+        if n + 1 == pos:
+            v = t.get(pos)
+            t.set(pos, None)
+            return v
+        if n == 0 and pos == 0:
+            return t.get(0)
+        if not 1 <= pos <= n + 1:
+            raise LuaError("bad argument #2 to 'remove' (position out of bounds)")
+        v = t.get(pos)
+        for i in range(pos, n):
+            t.set(i, t.get(i + 1))
+        t.set(n, None)
+        return v
+
+    def t_concat(t=None, sep="", i=1, j=None, *_):
+        _argt(t, 1, "concat")
+        j = t.length() if j is None else tointeger(j)
+        out = []
+        for k in range(tointeger(i), j + 1):
+            v = t.get(k)
+            if type(v) not in (str, int, float):
+                raise LuaError("invalid value (at index %d) in table for 'concat'" % k)
+            out.append(v if type(v) is str else fmt_number(v))
+        return _checkstr(sep, 2, "concat").join(out)
+
+    def t_sort(t=None, comp=None, *_):
+        _argt(t, 1, "sort")
+        import functools
+        n = t.length()
+        vals = [t.get(i) for i in range(1, n + 1)]
+        if comp is None:
+            lt = lua_lt
+        else:
+            def lt(a, b):
+                r = call_value(comp, [a, b])
+                return truthy(r[0] if r else None)
+        vals.sort(key=functools.cmp_to_key(lambda a, b: -1 if lt(a, b) else (1 if lt(b, a) else 0)))
+        for i, v in enumerate(vals, 1):
+            t.set(i, v)
+        return ()
+
+    def t_pack(*args):
+        t = LuaTable()
+        for i, v in enumerate(args, 1):
+            t.set(i, v)
+        t.set("n", len(args))
+        return t
+
+    for name, fn in [("insert", t_insert), ("remove", t_remove), ("concat", t_concat), ("sort", t_sort), ("pack", t_pack),
+                     ("unpack", l_unpack)]:
+        reg(T, name, fn)
+
+    # ---- math
+    M = lib("math")
+    M.d["pi"] = math.pi
+    M.d["huge"] = math.inf
+    M.d["maxinteger"] = (1 << 63) - 1
+    M.d["mininteger"] = -(1 << 63)
+
+    def m_floor(x=None, *_):
+        x = _argn(x, 1, "floor")
+        if type(x) is int:
+            return x
+        if x != x or x in (math.inf, -math.inf):
+            return x
+        return math.floor(x)
+
+    def m_ceil(x=None, *_):
+        x = _argn(x, 1, "ceil")
+        if type(x) is int:
+            return x
+        if x != x or x in (math.inf, -math.inf):
+            return x
+        return math.ceil(x)
+
+    def m_minmax(name, pick):
+        def f(*args):
+            if not args:
+                raise LuaError("bad argument #1 to '%s' (number expected, got no value)" % name)
+            best = _argn(args[0], 1, name)
+            for k, a in enumerate(args[1:], 2):
+                a = _argn(a, k, name)
+                if pick(a, best):
+                    best = a
+            return best
+        return f
+
+    def m_tointeger(x=None, *_):
+        if type(x) is int:
+            return x
+        if type(x) is float and x.is_integer():
+            return int(x)
+        return None
+
+    def m_type(x=None, *_):
+        if type(x) is int:
+            return "integer"
+        if type(x) is float:
+            return "float"
+        return None
+
+    def m_fmod(a=None, b=None, *_):
+        a, b = _argn(a, 1, "fmod"), _argn(b, 2, "fmod")
+        if type(a) is int and type(b) is int:
+            if b == 0:
+                raise LuaError("bad argument #2 to 'fmod' (zero)")
+            return int(math.fmod(a, b))
+        try:
+            return math.fmod(a, b)
+        except ValueError:
+            return math.nan
+
+    def m_sqrt(x=None, *_):
+        x = float(_argn(x, 1, "sqrt"))
+        return math.sqrt(x) if x >= 0 else math.nan
+
+    for name, fn in [("floor", m_floor), ("ceil", m_ceil), ("max", m_minmax("max", lambda a, b: a > b)),
+                     ("min", m_minmax("min", lambda a, b: a < b)), ("tointeger", m_tointeger), ("type", m_type), ("fmod", m_fmod),
+                     ("sqrt", m_sqrt),
+                     ("abs", lambda x=None, *_: (lambda v: wrap64(abs(v)) if type(v) is int else abs(v))(_argn(x, 1, "abs"))),
+                     ("pow", lambda a=None, b=None, *_: arith_numbers("^", _argn(a, 1, "pow"), _argn(b, 2, "pow"))),
+                     ("ult", lambda a=None, b=None, *_: (tointeger(a) & 0xFFFFFFFFFFFFFFFF) < (tointeger(b) & 0xFFFFFFFFFFFFFFFF))]:
+        reg(M, name, fn)
+
+    # ---- bit32 (Lua 5.2) and bit (BitOp, shipped with Wireshark)
+    def bits(mask_signed):
+        B = LuaTable()
+
+        def norm(v):
+            return tointeger(math.floor(v) if type(v) is float else v) & 0xFFFFFFFF
+
+        def out(v):
+            v &= 0xFFFFFFFF
+            return v - (1 << 32) if mask_signed and v >= (1 << 31) else v
+
+        def fold(f, init):
+            def g(*args):
+                acc = init
+                for a in args:
+                    acc = f(acc, norm(a))
+                return out(acc)
+            return g
+
+        def shift(a=None, n=None, *_):
+            a, n = norm(a), tointeger(n)
+            if mask_signed:
+                n &= 31
+            if n <= -32 or n >= 32:
+                return 0
+            return out(a << n if n >= 0 else a >> -n)
+
+        def arshift(a=None, n=None, *_):
+            a, n = norm(a), tointeger(n)
+            if mask_signed:
+                n &= 31
+            s = a - (1 << 32) if a >= (1 << 31) else a
+            return out(s >> min(n, 31)) if n >= 0 else out(a << -n)
+
+        reg(B, "band", fold(lambda x, y: x & y, 0xFFFFFFFF))
+        reg(B, "bor", fold(lambda x, y: x | y, 0))
+        reg(B, "bxor", fold(lambda x, y: x ^ y, 0))
+        reg(B, "bnot", lambda a=None, *_: out(~norm(a)))
+        reg(B, "lshift", shift)
+        reg(B, "rshift", lambda a=None, n=None, *_: shift(a, -tointeger(n) if not mask_signed else None) if not mask_signed
+            else out(norm(a) >> (tointeger(n) & 31)))
+        reg(B, "arshift", arshift)
+        reg(B, "tobit", lambda a=None, *_: out(norm(a)))
+        reg(B, "tohex", lambda a=None, n=8, *_: ("%08x" % norm(a))[-abs(tointeger(n)):])
+        return B
+    G.d["bit32"] = bits(False)
+    G.d["bit"] = bits(True)
+
+
+# =====================================================================================================
+# Interpreter facade
+
+class Interp:
+    def __init__(self, chunk="chunk", max_steps=5000000, max_depth=190):
+        self.chunk = chunk
+        self.globals = LuaTable()
+        self.steps = 0
+        self.max_steps = max_steps
+        self.depth = 0
+        self.max_depth = max_depth
+        self.output = []
+        self.string_meta = None
+        install_stdlib(self)
+
+    def setglobal(self, name, v):
+        self.globals.set(name, v)
+
+    def getglobal(self, name):
+        return self.globals.get(name)
+
+    def load(self, src, chunk=None):
+        """Source (bytes or latin-1 style str) -> LuaFunction for the main chunk.  Raises LuaSyntaxError / Unsupported."""
+        if isinstance(src, bytes):
+            src = src.decode("latin-1")
+        if chunk:
+            self.chunk = chunk
+        src = src.replace("\r\n", "\n")
+        ast = Parser(src, self.chunk).parse_chunk()
+        proto = Compiler(self).function(ast)
+        return LuaFunction(proto, [])
+
+    def call(self, f, *args):
+        """Call a Lua value from the host; resets the step counter.  -> list of results."""
+        self.steps = 0
+        self.depth = 0
+        try:
+            return call_value(f, list(args))
+        except RecursionError:
+            raise LuaError("stack overflow")
+
+    def run(self, src, *args):
+        return self.call(self.load(src), *args)
+
+
+def lua_bytes(s):
+    """Lua string (byte-per-char str) -> bytes."""
+    return s.encode("latin-1", "replace")
+
+
+def lua_text(s):
+    """Lua string -> readable text (the bytes decoded as UTF-8, replacing garbage)."""
+    return s.encode("latin-1", "replace").decode("utf-8", "replace") if isinstance(s, str) else s
+
+
+def main(argv):
+    import json
+    import lua_wireshark
+    if not argv or argv[0] in ("-h", "--help"):
+        print(__doc__)
+        return 2
+    path = argv[0]
+    hexs = None
+    strict = "--strict" in argv
+    if "--hex" in argv:
+        hexs = argv[argv.index("--hex") + 1]
+    with open(path, "rb") as f:
+        src = f.read()
+    import os
+    ses = lua_wireshark.Session(src, os.path.basename(path), strict=strict)
+    print("parse/load:", "ok" if ses.ok else "FAILED", ses.log)
+    if ses.unsupported:
+        print("unsupported:", ses.unsupported)
+    for line in ses.interp.output if ses.interp else []:
+        print("print>", line)
+    for w in ses.api_notes():
+        print("api-note:", w)
+    if hexs is not None and ses.ok:
+        data = bytes.fromhex(re.sub(r"[^0-9a-fA-F]", "", hexs))
+        r = ses.dissect(data)
+        print("dissect:", "ok ret=%r" % (r["ret"],) if r["ok"] else "ERROR " + r["err"])
+        for a in r["adds"]:
+            print("  " + json.dumps(a, ensure_ascii=False))
+        print("cols:", json.dumps(r.get("cols"), ensure_ascii=False))
+        for w in ses.api_notes():
+            print("api-note:", w)
+    return 0 if ses.ok else 1
+
+
+if __name__ == "__main__":
+    import os
+    sys.path.insert(0, os.path.dirname(os.path.abspath(__file__)))
+    import lua_interp as _self        # make the classes identical for lua_wireshark (avoid the __main__ twin)
+    sys.exit(_self.main(sys.argv[1:]))
